@@ -4,8 +4,8 @@ from common import *
 import decl, gen, pktcases, pktprops
 
 PID = 'C12'
-TARGETS = ['Properties/C12.vo', 'Bridge/ErrorsBridge.vo', 'Bridge/CodegenBridge.vo', 'Bridge/PlumbingBridge.vo']
-KERNELS = ['G9_errors', 'G11_codegen', 'G17_builder']
+TARGETS = ['Properties/C12.vo', 'Bridge/ErrorsBridge.vo', 'Bridge/CodegenBridge.vo', 'Bridge/PlumbingBridge.vo', 'Bridge/DataBridge.vo']
+KERNELS = ['G8_data', 'G9_errors', 'G11_codegen', 'G17_builder']
 PROP_FILE = 'Properties/C12.v'
 
 
@@ -103,8 +103,40 @@ def run(tier, seed, rng):
         G.add_extra(c, dict(op='api', raw=bytes(rng.randrange(256) for _ in range(rng.randrange(4))).hex(), offset=0))
     groups = pktprops.make_groups(rng, ng, feats, values_per_class=2 if tier == 'quick' else 4, offsets=(3,), maxcuts=20, flips=4,
                                   defaults=False, extra=extra)
+    # ---- corrupted length fields: a string whose computed size is NEGATIVE must fail AT THAT FIELD (named, at the offset where it
+    # begins), directly and one / two references deep; sizes -3..3 given as expression, callable and signed field
+    negmeta = {}
+    for variant, how in enumerate(('expr', 'lambda', 'field')):
+        size = ('field', 0) if how == 'field' else ('bin', 'Sub', ('field', 0), ('lit', 3))
+        fields = [{'move': None, 'body': ('elem', ('leaf', ('int', 1, how == 'field', None, 0)))},
+                  {'move': None, 'body': ('elem', ('leaf', ('int', 1, False, None, 0)))},
+                  {'move': None, 'body': ('elem', ('leaf', ('dsized', size, how, b'')))},
+                  {'move': None, 'body': ('elem', ('leaf', ('int', 2, False, None, 0)))}]
+        table = {0: dict(end=None, align=None, sbl=None, gp=(variant != 1), gu=(variant != 1), vec=True, ann=True, fields=fields),
+                 1: dict(end=None, align=None, sbl=None, gp=True, gu=True, vec=True, ann=True,
+                         fields=[{'move': None, 'body': ('elem', ('leaf', ('int', 1, False, None, 0)))}, {'move': None, 'body': ('elem', ('refpkt', 0, {}))}]),
+                 2: dict(end=None, align=None, sbl=None, gp=False, gu=False, vec=True, ann=True,
+                         fields=[{'move': None, 'body': ('elem', ('leaf', ('int', 2, False, None, 0)))}, {'move': None, 'body': ('elem', ('refpkt', 1, {}))}])}
+        G = pktcases.Group(table, 53000 + variant)
+        for n in range(-3, 4):
+            first = (n % 256) if how == 'field' else n + 3
+            body = bytes([first, 0x10]) + b'\xbe\xefwxyz'
+            for c, pre in ((0, b''), (1, b'\x01'), (2, b'\x02\x03\x01')):
+                G.add_unpack(c, pre + body, 0)
+                negmeta[(53000 + variant, c, (pre + body).hex())] = (n, len(pre))
+        groups.append(G)
     records, disagreements = pktcases.run_groups(groups, 'c12')
     failures = []
+    for r in records:
+        if r['group'] >= 53000 and r['kind'] in ('unpack', 'roundtrip') and isinstance(r.get('raw'), bytes):
+            key = (r['group'], r['c'], r['raw'].hex())
+            if key in negmeta and negmeta[key][0] < 0:
+                n, depth_off = negmeta[key]
+                o = r['outcome']
+                want0 = [depth_off + 2, 'f2', 'K0']
+                if o.get('err') != 'unpacking' or list(o['stack'][0]) != want0 or len(o['stack']) != r['c'] + 1:
+                    failures.append(dict(kind='oracle', sig='negative-size', what=f"a string whose computed size is {n} must fail at that field: PacketError(unpacking) with innermost entry {want0} and {r['c'] + 1} entries; observed {o}",
+                                         classes=pktprops.class_source(groups, r['group']), cls=decl.cname(r['c']), raw=r['raw'].hex(), offset=0, observed=o))
     dist = dict(unpack_errors=0, pack_errors=0, depth2plus=0, struct_run_errors=0, api_cases=0, non_packet_errors=0)
     defined = {(r['group'], r['c']): r['outcome'] == 'ok' for r in records if r['kind'] == 'defined'}
     for r in records:
